@@ -36,7 +36,13 @@ def judge (args : List String) (out : String) : String :=
           if v1 ≠ "holds" then
             (if q1 = renderQuery (hist.take (k + 1)) then "violates:error-reported-but-block-committed-at-" ++ at_
              else v1 ++ "-at-" ++ at_)
-          else verdictAt "final" q2 l2 (hist.eraseIdx k) (hist.eraseIdx k)
+          else
+            let v2 := verdictAt "final" q2 l2 (hist.eraseIdx k) (hist.eraseIdx k)
+            -- a write-out without flows adds no row: that its block was committed although the write
+            -- reported an error only shows in the totals (drops) of the final state
+            if v2 ≠ "holds" ∧ verdictAt "final" q2 l2 hist hist = "holds" then
+              "violates:error-reported-but-block-committed-at-" ++ at_
+            else v2
       | _, _, _, _, _ => "violates:unparsable"
     | _, _ => "violates:bad-case"
   | _ => "violates:bad-op"
